@@ -564,6 +564,119 @@ func gatherVsRestart(kind string) zzmc.Scenario {
 	}
 }
 
+// gatherVsGather: two back-to-back GatherCandidates calls. Whether the second is refused or accepted (it is
+// accepted while the first cycle has not yet left New), one cycle's worth of results is published: every
+// address once, one end-of-gathering marker, nothing after it.
+func init() {
+	csScenarios["gather-vs-gather"] = func() zzmc.Scenario { return gatherVsGather(false) }
+	csScenarios["gather-vs-gather-vs-restart"] = func() zzmc.Scenario { return gatherVsGather(true) }
+}
+
+func gatherVsGather(withRestart bool) zzmc.Scenario {
+	return zzmc.Scenario{
+		Name:     "gather-vs-gather",
+		Focus:    []string{"taskloop.go"},
+		MaxSteps: 3000,
+		Setup: func(s *zzmc.Sched) func(string) (string, string) {
+			raw, _ := json.Marshal(gatherCfg{Ifaces: gIfacesBasic, NetTypes: []string{"udp4"}, CandTypes: []string{"host"}})
+			gw := newGatherWorld(raw)
+			fail := ""
+			_ = gw.a.OnCandidate(func(c Candidate) {
+				if c == nil {
+					gw.candLog = append(gw.candLog, "nil")
+
+					return
+				}
+				gw.candLog = append(gw.candLog, c.Address())
+			})
+			res := map[string]string{}
+			for _, n := range []string{"G1", "G2"} {
+				s.Go(n, func() { res[n] = fmt.Sprint(gw.a.GatherCandidates()) })
+			}
+			if withRestart {
+				s.Go("R", func() { res["R"] = fmt.Sprint(gw.a.Restart("", "")) })
+			}
+
+			return func(dead string) (string, string) {
+				synctest.Wait()
+				time.Sleep(10 * time.Second)
+				synctest.Wait()
+				accepted := 0
+				for n, r := range res {
+					switch {
+					case r == "<nil>":
+						if n != "R" {
+							accepted++
+						}
+					case n != "R" && r == ErrMultipleGatherAttempted.Error():
+					default:
+						fail += n + "-RETURNED-" + r + " "
+					}
+				}
+				if accepted == 0 {
+					fail += "NO-GATHER-CALL-ACCEPTED "
+				}
+				st, _ := gw.a.GetGatheringState()
+				nils, seen := 0, map[string]int{}
+				for i, c := range gw.candLog {
+					if c == "nil" {
+						nils++
+						if i != len(gw.candLog)-1 {
+							fail += "CANDIDATE-PUBLISHED-AFTER-END-OF-GATHERING-MARKER "
+						}
+
+						continue
+					}
+					seen[c]++
+				}
+				locals := map[string]int{}
+				for _, c := range gw.localCands() {
+					locals[c.Address()]++
+				}
+				var fl []string
+				for addr, n := range locals {
+					if n > 1 {
+						fl = append(fl, fmt.Sprintf("TWO-CYCLES-OVERLAPPED:%d-LOCAL-CANDIDATES-FOR-%s ", n, addr))
+					}
+				}
+				if !withRestart {
+					for addr, n := range seen {
+						if n > 1 {
+							fl = append(fl, fmt.Sprintf("TWO-CYCLES-OVERLAPPED:%s-PUBLISHED-%d-TIMES ", addr, n))
+						}
+					}
+					sort.Strings(fl)
+					fail += strings.Join(fl, "")
+					fl = nil
+					if nils != 1 || st != GatheringStateComplete {
+						fail += fmt.Sprintf("END-MARKERS=%d-STATE=%s ", nils, st)
+					}
+				} else {
+					// a cycle cancelled by Restart may have published part of its results; a second marker is never legitimate
+					sort.Strings(fl)
+					fail += strings.Join(fl, "")
+					if nils > 1 {
+						fail += fmt.Sprintf("END-MARKERS=%d ", nils)
+					}
+					if st == GatheringStateGathering {
+						fail += "GATHERING-NEVER-FINISHED "
+					}
+					if st == GatheringStateNew && len(locals) != 0 {
+						fail += fmt.Sprintf("CANDIDATE-OF-CANCELLED-CYCLE-IN-NEW-GENERATION(%d) ", len(locals))
+					}
+				}
+				out := fmt.Sprintf("accepted=%d locals=%d published=%d nils=%d state=%s", accepted, len(locals), len(gw.candLog), nils, st)
+				gw.Close()
+				if open := gw.openResources(-1); len(open) > 0 {
+					fail += "RESOURCES-LEFT-OPEN:" + strings.Join(open, ",") + " "
+				}
+
+				return out, fail
+			}
+		},
+	}
+}
+
 // ---------------------------------------------------------------- directed scenario for the addCandidate window
 
 type restartingCtx struct {
